@@ -350,6 +350,47 @@ def cry_obligations():
         o.append(Ob('cry_execute_verify' + nm, PV + ['C15'], enforce='runcrypt__execute_verify', replace=['runcrypt__verify', 'runcrypt__over'], timeout=600,
                     contracts=['cry.h'], defines=['WV_USE_SPEC_AES'] + dd,
                     note='returns verify() == 0; no file is written (frame); process-global state untouched' + (' (no output file given)' if dd else '')))
+    # C05 as a lemma over the contract of verify(): two files that differ in exactly one header byte (offset d < 48) are presented
+    # under the same key.  verify() is represented by its contract (proved by cry_verify) in both calls.
+    o.append(Ob('cry_c05_header_bytes', ['C05'], replace=['runcrypt__verify'], timeout=600, **CRY, harness='''
+#define WV_PAIR_SETUP(r, f) { r->fin = f; r->key = key; r->header.fp = f; r->header.out = r->out; r->header.key = key; r->header.num = r->threads_num; \\
+  r->aesfactory.key = key; r->crym.THREADS_NUM = r->threads_num; __CPROVER_assume(r->threads_num >= 1 && r->threads_num <= 16 && WV_T_IS(r->threads_num) && WV_FILE_OPEN(f)); }
+#define WV_AGREE(o) ((o) == d || wv_filebyte(fa->id, (o)) == wv_filebyte(fb->id, (o)))
+void h_cry_c05_header_bytes(void)
+{
+  runcrypt *a = malloc(sizeof(runcrypt)), *b = malloc(sizeof(runcrypt));
+  wv_FILE *fa = malloc(sizeof(wv_FILE)), *fb = malloc(sizeof(wv_FILE));
+  u8_t *key = malloc(16);
+  __CPROVER_assume(a && b && fa && fb && key);
+  WV_PAIR_SETUP(a, fa);
+  WV_PAIR_SETUP(b, fb);
+  __CPROVER_assume(WV_GHOST_IN);
+  /* B is A with the byte at offset d < 48 changed and nothing else (stated for every offset the contract of verify speaks about;
+     wv_gr is the harness-chosen index of a tag byte) */
+  unsigned long long d;
+  __CPROVER_assume(d < 48 && fa->id != fb->id && fa->len == fb->len && a->threads_num == b->threads_num);
+  __CPROVER_assume(WV_AGREE(0) && WV_AGREE(1) && WV_AGREE(2) && WV_AGREE(3) && WV_AGREE(4) && WV_AGREE(5) && WV_AGREE(6) && WV_AGREE(7) && WV_AGREE(8) && WV_AGREE(9));
+  __CPROVER_assume(WV_AGREE(10 + (unsigned long long)wv_gr));
+  __CPROVER_assume((d >= 10 && d < 26) ==> wv_gr == d - 10);   /* the observed tag byte is the changed one when a tag byte (index < 16) is changed */
+  __CPROVER_assume(wv_filebyte(fa->id, d) != wv_filebyte(fb->id, d));
+  size_t fsize;
+  u8_t ra = runcrypt__verify(a, fsize);
+  struct wv_tag_t tag_a = wv_tagv;
+  __CPROVER_assume(WV_GHOST_IN);   /* the ghost call log is an observer: it is set up again for the second run */
+  u8_t rb = runcrypt__verify(b, fsize);
+  /* C08: the tag is a function of (key, hash mode, bytes [48, EOF)); both runs have the same key and the same bytes from 48 on */
+  __CPROVER_assume(a->header.htype == b->header.htype ==> tag_a.b[wv_gr] == wv_tagv.b[wv_gr]);
+  unsigned hlen = WV_HLEN_OF_TYPE(a->header.htype);
+  if (ra == 0 && rb == 0)
+  {
+    __CPROVER_assert(d >= 8, "[C05] the eight magic bytes are fixed by an accepting verdict");
+    __CPROVER_assert(!(d >= 10 && d < 26 && d < 10 + hlen), "[C05] every tag byte (index < 16) is fixed by an accepting verdict");
+    __CPROVER_assert(d != 8, "[C05] the cipher-mode byte (offset 8) is bound by an accepting verdict");
+    __CPROVER_assert(d == 8 || d == 9 || d >= 10 + hlen || d >= 26,
+                     "[C05-envelope] two accepted files that differ in one header byte differ in the cipher-mode byte, the hash-mode byte (left to the cryptographic assumption), a tag byte of index >= 16 (not observed by this lemma) or the unused zero fill");
+  }
+  __CPROVER_assert(0, "WV_CANARY");
+}''', note='lemma over the contract of verify(): which single header bytes can differ between two accepted files'))
     o.append(Ob('cry_prepare_IV_file', PV + ['C01'], enforce='runcrypt__prepare_IV_2', replace=['FileHeader__getIV_2'], **CRY))
     o.append(Ob('cry_prepare_IV_seed', ['C02', 'C18', 'C13'], enforce='runcrypt__prepare_IV_1', replace=['FileHeader__getIV_1', 'FileHeader__getFileHeader'], **CRY))
     o.append(Ob('bg_get_instance', ['C15', 'C01'], enforce='buffergroup__get_instance', **CRY, note='double-checked singleton creation; a fresh instance starts at turn 0, not over'))
@@ -365,17 +406,26 @@ def cry_obligations():
                     note='T buffers, all EMPTY (owned by the I/O thread), nothing loaded; live_num == T' + tn))
         o.append(Ob('bg_del_instance_T%d' % T, ['C15'], enforce='buffergroup__del_instance', contracts=['cry.h'], defines=dT, tier=tier,
                     note='the singleton and its arrays are released and the pointer is cleared' + tn))
-        o.append(Ob('cry_execute_encrypt_T%d' % T, ['C02', 'C08', 'C12', 'C13', 'C15', 'C18'], enforce='runcrypt__execute_encrypt', timeout=900, contracts=['cry.h'],
-                    defines=dT + ['WV_FACTORY_LIGHT'], tier=tier, unwind=T + 2,
-                    replace=['runcrypt__prepare_IV_1', 'AesFactory__createCryMaster', 'multicry_master__run_multicry', 'hmac__writeFileHmac',
-                             'runcrypt__release', 'runcrypt__over'],
+        enc = dict(enforce='runcrypt__execute_encrypt', contracts=['cry.h'], defines=dT + ['WV_FACTORY_LIGHT'], unwind=T + 2,
+                   replace=['runcrypt__prepare_IV_1', 'AesFactory__createCryMaster', 'multicry_master__run_multicry', 'hmac__writeFileHmac',
+                            'runcrypt__release', 'runcrypt__over'])
+        # prepare_AES and the instance set-up are the real code in both: a pointer that is only *assumed* equal (by a replaced
+        # contract) cannot be dereferenced efficiently by CBMC, and the pipeline summary reaches the files through the instance
+        dec = dict(enforce='runcrypt__execute_decrypt', contracts=['cry.h'], defines=dT + ['WV_FACTORY_LIGHT'], unwind=T + 2,
+                   replace=['runcrypt__verify', 'runcrypt__prepare_IV_2', 'wv_fseek', 'AesFactory__createCryMaster', 'multicry_master__run_multicry',
+                            'runcrypt__release', 'runcrypt__over'])
+        o.append(Ob('cry_execute_encrypt_T%d' % T, ['C02', 'C08', 'C12', 'C13', 'C15'], timeout=900, tier=tier, skip_desc=r'^\[C18', **enc,
                     note='write order header -> body -> tag (last write); output length; tag area written zero then once; input only read; global state fresh again' + tn))
-        o.append(Ob('cry_execute_decrypt_T%d' % T, PV + ['C15', 'C18', 'C01'], enforce='runcrypt__execute_decrypt', timeout=900, contracts=['cry.h'], defines=dT + ['WV_FACTORY_LIGHT'], tier=tier,
-                    # prepare_AES and the instance set-up are the real code here: a pointer that is only *assumed* equal (by a replaced
-                    # contract) cannot be dereferenced efficiently by CBMC, and the pipeline summary reaches the files through the instance
-                    replace=['runcrypt__verify', 'runcrypt__prepare_IV_2', 'wv_fseek', 'AesFactory__createCryMaster', 'multicry_master__run_multicry',
-                             'runcrypt__release', 'runcrypt__over'], unwind=T + 2,
+        o.append(Ob('cry_execute_decrypt_T%d' % T, PV + ['C15', 'C01'], timeout=900, tier=tier, skip_desc=r'^\[C18', **dec,
                     note='same verdict as verify; output written only after a 0 verdict and bounded by the body length; global state fresh again' + tn))
+        # C18: the stream-IV assertions written in prepare_AES, discharged in the context of its two callers (same groups as above,
+        # only these assertions selected).  The built-in SAT solver is used: the external one runs out of memory on the satisfiable
+        # instance of the recorded finding (measured).
+        t18 = 'quick' if T in (1, 2) else 'thorough'
+        o.append(Ob('cry_stream_ivs_encrypt_T%d' % T, ['C18'], timeout=2400, tier=t18, only_desc=r'^\[C18', solver='minisat', **enc,
+                    note='in-place assertions of prepare_AES reached from execute_encrypt: stream i starts from IV i (property); from IV i or IV 0 (envelope of the recorded finding)' + tn))
+        o.append(Ob('cry_stream_ivs_decrypt_T%d' % T, ['C18'], timeout=2400, tier=t18, only_desc=r'^\[C18', solver='minisat', **dec,
+                    note='the same assertions reached from execute_decrypt' + tn))
     return o
 
 
